@@ -411,9 +411,9 @@ def word_rule(rep, mod):
         m = {}
         reg = [p for p in prefixes if p.startswith('phi:') and 'crc' in p]
         if len(reg) != 1:
-            rep.inst('R-CRCSTEP', 'igris_crc32', 'word-step:%s' % tag, False, where,
-                     'cannot identify the CRC register among %s' % prefixes)
-            continue
+            # the step is written in a form this rule cannot decompose; the whole-function evaluation (R-CRCWHOLE) decides igris_crc32 for
+            # fixed lengths in any form
+            raise AnalysisBroken('igris_crc32 word step (%s): ' % tag + ('cannot identify the CRC register among %s' % prefixes))
         m.update(sym_map(reg[0], 32, 'c'))
         if word_loads:
             rep.inst('R-CRCSTEP', 'igris_crc32', 'word-step:%s' % tag, False, b.insts[0].where(),
@@ -429,9 +429,9 @@ def word_rule(rep, mod):
                     break
                 lanes[lane] = v
             if not lanes or sorted(lanes) != [0, 1, 2, 3]:
-                rep.inst('R-CRCSTEP', 'igris_crc32', 'word-step:%s' % tag, False, where,
-                         'cannot map the byte loads to the four lanes of a word')
-                continue
+                # the step is written in a form this rule cannot decompose; the whole-function evaluation (R-CRCWHOLE) decides igris_crc32 for
+                # fixed lengths in any form
+                raise AnalysisBroken('igris_crc32 word step (%s): ' % tag + ('cannot map the byte loads to the four lanes of a word'))
             for lane, v in lanes.items():
                 pref = next(iter(v.bits[0]))[:-1]
                 for k in range(8):
@@ -439,9 +439,9 @@ def word_rule(rep, mod):
         else:
             other = [p for p in prefixes if p != reg[0]]
             if len(other) != 1:
-                rep.inst('R-CRCSTEP', 'igris_crc32', 'word-step:%s' % tag, False, where,
-                         'tail step depends on %s' % other)
-                continue
+                # the step is written in a form this rule cannot decompose; the whole-function evaluation (R-CRCWHOLE) decides igris_crc32 for
+                # fixed lengths in any form
+                raise AnalysisBroken('igris_crc32 word step (%s): ' % tag + ('tail step depends on %s' % other))
             m.update(sym_map(other[0], 32, 'w'))
         got = rename(res, m)
         want = crc_step_ref(BV.sym(32, 'c'), BV.sym(32, 'w'), 0x04C11DB7, 32, False, nbits=32)
@@ -451,8 +451,8 @@ def word_rule(rep, mod):
                  b.insts[0].where(),
                  None if ok else 'CRC-32 word step (%s) differs from the definition in register bit(s) %s' % (tag, bad[:8]))
     if n < 2:
-        rep.inst('R-CRCSTEP', 'igris_crc32', 'word-steps-found', False, where,
-                 'expected a body and a tail step of 8 nibble look-ups each, found %d' % n)
+        raise AnalysisBroken('igris_crc32: expected a body and a tail step of 8 nibble look-ups each, found %d (form not recognised; '
+                             'R-CRCWHOLE decides the function for fixed lengths)' % n)
 
 
 def lane_of(f, ld):
@@ -506,7 +506,10 @@ def run(rep, repo, tier):
         r = check_step(rep, mod, fname, width, poly, refl, note, sb)
         if r:
             fold_rule(rep, *r, seed_param=seed, shift=shift)
-    word_rule(rep, mod)
+    try:
+        word_rule(rep, mod)
+    except AnalysisBroken as e:
+        rep.defer_broken(e)      # R-CRCWHOLE below still decides igris_crc32 for fixed lengths
     whole_rule(rep, mod, 'igris_crc8', 8, 0x8C, True, 'crc_init', 'data', 'len')
     whole_rule(rep, mod, 'igris_crc8_table', 8, 0x8C, True, 'crc_init', 'addr', 'len')
     whole_rule(rep, mod, 'igris_crc16', 16, 0x1021, False, 'crc_init', 'data', 'length')
